@@ -11,7 +11,7 @@ HARNESS = "C07_constraints.cpp"
 EXPLANATION = ("One built-in constraint (every type of the property's list except user-written Custom; CoordinateCoupler, SpeedCoupler and "
                "PrescribedMotion are Custom-based and are driven with a symbolic quadratic Function) is attached to a symbolic tree "
                "(Ground-body, body-Ground, siblings, parent-child, ancestor-descendant with a non-Ground ancestor, siblings under a non-Ground "
-               "ancestor); all stations, axes, frames, radii, lengths, function coefficients, time, q, u are symbolic and the state violates "
+               "ancestor, Ground-grandchild); all stations, axes, frames, radii, lengths, function coefficients, time, q, u are symbolic and the state violates "
                "the constraint. From the real code: getQErr, getUErr, calcConstraintAccelerationErrors(udot), calcPq, multiplyByPq, "
                "calcPqTranspose, multiplyByPqTranspose, calcG, multiplyByG, calcGTranspose, multiplyByGTranspose, calcBiasForMultiplyByG, "
                "calcBiasForAccelerationConstraints. Proved for all values of the free inputs: verr = d/dt perr (holonomic rows; exact forward-mode "
@@ -19,14 +19,24 @@ EXPLANATION = ("One built-in constraint (every type of the property's list excep
                "along qdot, udot, dt=1), Pq = d perr/dq column by column, multiplyByPq(x)=calcPq x, calcPqTranspose = calcPq^T, "
                "multiplyByPqTranspose(l) = calcPq^T l, multiplyByG(x) = calcG x for every x (hence for every unit vector), calcGTranspose = calcG^T, "
                "multiplyByGTranspose(l) = calcG^T l, <l, G x> = <G^T l, x>, aerr(udot) = G udot + calcBiasForAccelerationConstraints, "
-               "verr = G u + calcBiasForMultiplyByG on holonomic rows, and the holonomic rows of G equal Pq N.")
-BOUNDS = ("trees of 1-3 bodies from a pool of mobilizers (quick: ~3 attachment shapes per constraint type, thorough: all 6 shapes and two mobilizer draws); "
+               "verr = G u + calcBiasForMultiplyByG on holonomic rows, and the holonomic rows of G equal Pq N. "
+               "Three families are, by Simbody's documented design, exact derivatives only ON the constraint manifold; for them the exact identity that holds "
+               "everywhere (and reduces to the property's clause where the error vanishes) is proved instead: Ball rows and Weld translational rows use the material "
+               "point of the first body coincident with the second body's station: verr = d/dt perr - w_AB x perr, aerr = d/dt verr + w_AB x verr, "
+               "Pq xq = (d perr/dq) xq - w_AB(qdot:=xq) x perr; SphereOnSphereContact rolling rows are components along an arbitrary tangent basis: "
+               "aerr = d/dt verr -/+ sigma verr_t with sigma the spin of that basis. Two genuine deviations found by this check are recorded in known_findings.json "
+               "(NoSlip1D acceleration error; calcBiasForAccelerationConstraints with constrained coordinates of mobilizers with qdot != u).")
+BOUNDS = ("trees of 1-3 bodies from a pool of mobilizers (quick: 3 attachment shapes per constraint type, thorough: all 7 shapes); "
           "free: u, udot, test vectors x, xq, multipliers lambda (all linear inputs) plus k coordinates at a time (k=1 quick, 2 thorough) and, in one extra "
           "free set per base point, the constraint's stations/lengths/coefficients with the coordinates pinned; other inputs pinned at exact rational base points "
-          "(2 quick / 6 thorough). Identities involving Pq or N on quaternion mobilizers are proved for unit quaternions.")
+          "(2 quick / 4 thorough). Identities involving Pq or N on quaternion mobilizers are proved for unit quaternions. SphereOnSphereContact rolling rows: "
+          "only with every coordinate pinned (speeds free).")
 NOT_COVERED = ("anything that needs multipliers (constraint forces in forward dynamics, getUDotErr after realize(Acceleration), constraint power): FactorQTZ/LAPACK, "
                "see C08; user-written Constraint::Custom subclasses other than the three built-in ones; acceleration-only rows have no derivative obligation "
-               "(only the G/G^T/bias identities); more than k simultaneously free coordinates; configurations where a constraint's own formula is singular "
+               "(only the G/G^T/bias identities); the plain derivative hierarchy OFF the manifold for Ball, Weld (translational rows) and SphereOnSphereContact rolling rows "
+               "(it does not hold there by design; the corrected identities above are proved); calcPqTranspose/multiplyByPqTranspose against calcPq^T when a "
+               "coordinate-level holonomic constraint acts directly on a quaternion component (the two differ by a multiple of q, which N^T annihilates; G and G^T agree); "
+               "more than k simultaneously free coordinates; configurations where a constraint's own formula is singular "
                "(zero-length Rod separation, coincident sphere centres, parallel lines: excluded by the division side conditions); float; rounding")
 
 NQ = dict(Pin=(1, 1), Slider=(1, 1), Universal=(2, 2), Cylinder=(2, 2), BendStretch=(2, 2), Planar=(3, 3), Gimbal=(3, 3), Bushing=(6, 6),
@@ -107,9 +117,12 @@ def instances(tier, seed):
                 if m in QDOT_NOT_U and int(i) < (3 if euler else 4):
                     name = "qdotNotU:" + name
                     break
-        out.append(dict(name=name, args=[tree, "1" if euler else "0", ctype + ":" + cspec]))
+        d = dict(name=name, args=[tree, "1" if euler else "0", ctype + ":" + cspec])
+        if tier == "thorough":
+            d["base_points"] = 4
+        out.append(d)
 
-    ndraw = 2 if tier == "thorough" else 1
+    ndraw = 1          # (thorough = all attachment shapes, 4 base points, k = 2: sized to stay within 30 minutes on 16 cores)
     for ctype in BODY2:
         for d in range(ndraw):
             sh = _shapes(rng)
